@@ -6,9 +6,11 @@ Model of the two ends of the `rdsquashfs --describe` → `gensquashfs --pack-fil
 * `lib/util/src/get_line.c`             — `fileLines`   (`istream_get_line` with LTRIM | SKIP_EMPTY)
 * `bin/gensquashfs/src/fstree_from_file.c` — `handleLine`, `fstreeFromFile` (keyword table, arity, field decoding,
                                            up to the `sqfs_dir_entry_t` + `extra` handed to `fstree_add_generic`)
-* `bin/rdsquashfs/src/describe.c`       — `describeNode`, `describeTree`  (the **repaired** printer of
-                                           `fixes/C16-describe-quoting.patch`; the printer of the pinned snapshot is
-                                           modelled in `Sqfs/Witness/C16.lean`)
+* `bin/rdsquashfs/src/describe.c`       — `describeNode`, `describeTree`  (the printer **as it is in /repo today**,
+                                           i.e. after fix 96e45c1 "quote and escape names, link targets and file
+                                           locations"; the printer of the pinned snapshot is `Sqfs/Model/QuoteOld.lean`,
+                                           the printer with `fixes/C16-describe-newline.patch` applied is
+                                           `Sqfs/Model/QuoteLF.lean`)
 * `lib/common/src/dir_tree.c: sqfs_tree_node_get_path` — `getPath`
 * glibc `major`/`minor`/`makedev` (sys/sysmacros.h) — `devMajor`, `devMinor`, `makedev`
 
@@ -394,7 +396,7 @@ def fromLines (opt : Opt) : List Bytes → List Entry × Option FErr
 def fstreeFromFile (opt : Opt) (content : Bytes) : List Entry × Option FErr :=
   fromLines opt ((splitLF content []).map cookLine)
 
-/-! ## `describe.c` (repaired printer) -/
+/-! ## `describe.c` (as in /repo: `print_escaped` quotes on space, tab, CR, `"`, `\`; no test for LF) -/
 
 inductive Kind | dir | file | slink | chr | blk | fifo | sock | other
   deriving DecidableEq, Repr
@@ -413,6 +415,7 @@ inductive DErr
   | insaneName     -- `is_filename_sane` refused the node's name
   | path           -- `sqfs_tree_node_get_path` failed (empty / "." / ".." / contains '/')
   | canon          -- `canonicalize_name` failed
+  | newline        -- only with `fixes/C16-describe-newline.patch` (`Sqfs.QuoteLF`): a string to print contains LF
   deriving DecidableEq, Repr
 
 /-- `sqfs_tree_node_get_path` for the node whose ancestors' names (root excluded) and own name are `comps` -/
@@ -509,8 +512,18 @@ def describeForest (unpackRoot : Option Bytes) (parents : List Bytes) : List Tre
       | .ok b => .ok (a ++ b)
 end
 
-/-- `describe_tree(root, unpack_root)` as `rdsquashfs -d` calls it: the root node has no parent and the empty name -/
+def Tree.node : Tree → Node
+  | .mk _ n _ => n
+
+/-- `describe_tree(root, unpack_root)` as `rdsquashfs -d` calls it: the root node has no parent; its name is empty in
+every tree `sqfs_dir_reader_get_full_hierarchy` returns.  For a parentless node that does have a name (never built by
+rdsquashfs; the harness does): `is_filename_sane` is asked first, then every kind that prints calls
+`sqfs_tree_node_get_path`, which fails ("root node must not have a name") — a directory included, because
+`root->parent == NULL` makes it print; the remaining kinds print nothing and succeed. -/
 def describe (unpackRoot : Option Bytes) (t : Tree) : Except DErr Bytes :=
-  if t.name ≠ [] then .error .path else describeTree unpackRoot [] t
+  if t.name = [] then describeTree unpackRoot [] t
+  else if !(Sqfs.Path.isFilenameSane t.name) then .error .insaneName
+  else if t.node.kind = .other then .ok []
+  else .error .path
 
 end Sqfs.Quote
